@@ -99,12 +99,22 @@ def scenario(sim):
             if c is not None:
                 register("s", c, "peer-opened")
 
-    tasks = [sim.spawn(client_opener, "copen%d" % k, k) for k in range(2 + sim.choose(3))]
-    tasks += [sim.spawn(server_opener, "sopen%d" % k, k) for k in range(1 + sim.choose(2))]
     acc = sim.spawn(acceptor, "acceptor")
-    end = sim.now + 300
-    while any(t.state != core.DONE for t in tasks) and sim.now < end:
-        sim.sleep(0.25)
+    tasks = []
+    for rnd in range(1 + sim.choose(2)):
+        if rnd:
+            # a whole trip round the 24-bit space later: the counter is back just below 2^24 while the
+            # long-lived channels opened around the previous wrap are still open and must be stepped over
+            ssh.quiesce(sim, [link], (), settle=0.2, limit=20)
+            p.tc._channel_counter = (MAXID - 1 - sim.choose(6)) % MAXID
+            p.ts._channel_counter = (MAXID - 1 - sim.choose(6)) % MAXID
+            sim.probe("second_trip_round_the_id_space")
+        batch = [sim.spawn(client_opener, "copen%d" % k, k) for k in range(2 + sim.choose(3))]
+        batch += [sim.spawn(server_opener, "sopen%d" % k, k) for k in range(1 + sim.choose(2))]
+        tasks += batch
+        end = sim.now + 300
+        while any(t.state != core.DONE for t in batch) and sim.now < end:
+            sim.sleep(0.25)
     ssh.quiesce(sim, [link], (), settle=0.2, limit=20)
     stop[0] = True
     sim.join_task(acc, 5)
